@@ -146,7 +146,7 @@ CHECKS = {
                     "names select the documented member. Exact decoding of the literal for all Unicode is not decided.",
             "note": TB + "; ElementTree find()/text may be None"},
     "C18": {"engine": "X", "design_ref": "DESIGN.md section 3 C18",
-            "technique": "static analysis: clang -fsyntax-only AST (JSON) of matlab.h against declaration-only stubs; writer/reader table agreement, guard-before-use ordering, typed/bounded raw stores, loop-nest shape comparison",
+            "technique": "static analysis: clang -fsyntax-only AST (JSON) of matlab.h against declaration-only stubs; writer/reader table agreement, guard-before-use ordering, typed/bounded raw stores, loop-nest shape and loop-header comparison, truth-table comparison of every error guard, argument checks of array-creating and MATLAB-calling functions",
             "text": "Decides the structural conditions of loss-free conversion in matlab.h: wrap/unwrap tables "
                     "agree; scalar readers check shape first and read through their own type; raw stores are "
                     "typed and fit the created array (LP64, and ILP32 in the thorough tier); vector/matrix "
